@@ -159,32 +159,35 @@ class DriverGen:
             c.append("    case %d: return mh::data_op(sbepp::get_by_tag<%s::%s>(v), c2);" % (i, tag, d.name))
         c.append("    default: return \"ERRK\"; } }")
         c.append("#endif")
-        c.append("#ifdef MSGDRV_CURSOR")
-        c.append("  if(c.op == \"cur\") {")
-        c.append("    sbepp::cursor<char> cur; std::ostringstream os; bool first = true;")
-        c.append("    if(c.arg == \"init\") cur = sbepp::init_cursor(v); else cur.pointer() = reinterpret_cast<char*>(c.base) + std::atoll(c.arg.c_str());")
-        c.append("    for(const auto& ops : c.ops) { mh::cur_op o = mh::parse_cur_op(ops); std::string r = \"ERRK\";")
-        c.append("      std::string body = ops.substr(0, ops.find(':'));")
-        c.append("      int st = hu::guarded([&]{")
-        c.append("        if(o.kind == 'f') switch(o.k) {")
-        for k, f in enumerate(nf):
-            c.append("          case %d: r = mh::cur_field_op<%s_f%d>(v, cur, o.w, c.base); break;" % (k, name, k))
-        c.append("          default: break; }")
-        c.append("        else if(o.kind == 'g') switch(o.k) {")
-        for i, g in enumerate(lv.groups):
-            c.append("          case %d: r = mh::cur_group_op<%s_g%d>(v, cur, o.w, c.base); break;" % (i, name, i))
-        c.append("          default: break; }")
-        c.append("        else if(o.kind == 'd') switch(o.k) {")
-        for i, d in enumerate(lv.data):
-            c.append("          case %d: r = mh::cur_group_op<%s_d%d>(v, cur, o.w, c.base); break;" % (i, name, i))
-        c.append("          default: break; }")
-        c.append("      });")
-        c.append("      if(!first) os << ' '; first = false;")
-        c.append("      if(st == 1) { os << body << \":ASSERT\"; break; }")
-        c.append("      if(st == 2) { os << body << \":FAULT\"; break; }")
-        c.append("      os << body << r << \",c\" << mh::off_of(cur.pointer(), c.base); }")
-        c.append("    return os.str(); }")
-        c.append("#endif")
+        for opname, sfx, guard in (("cur", "", "#ifdef MSGDRV_CURSOR"),
+                                   ("curt", "t", "#if defined(MSGDRV_CURSOR) && defined(MSGDRV_BYTAG)")):
+            # "curt": the same call sequences through sbepp::get_by_tag<Tag>(view, cursor)
+            c.append(guard)
+            c.append("  if(c.op == \"%s\") {" % opname)
+            c.append("    sbepp::cursor<char> cur; std::ostringstream os; bool first = true;")
+            c.append("    if(c.arg == \"init\") cur = sbepp::init_cursor(v); else cur.pointer() = reinterpret_cast<char*>(c.base) + std::atoll(c.arg.c_str());")
+            c.append("    for(const auto& ops : c.ops) { mh::cur_op o = mh::parse_cur_op(ops); std::string r = \"ERRK\";")
+            c.append("      std::string body = ops.substr(0, ops.find(':'));")
+            c.append("      int st = hu::guarded([&]{")
+            c.append("        if(o.kind == 'f') switch(o.k) {")
+            for k, f in enumerate(nf):
+                c.append("          case %d: r = mh::cur_field_op<%s_%sf%d>(v, cur, o.w, c.base); break;" % (k, name, sfx, k))
+            c.append("          default: break; }")
+            c.append("        else if(o.kind == 'g') switch(o.k) {")
+            for i, g in enumerate(lv.groups):
+                c.append("          case %d: r = mh::cur_group_op<%s_%sg%d>(v, cur, o.w, c.base); break;" % (i, name, sfx, i))
+            c.append("          default: break; }")
+            c.append("        else if(o.kind == 'd') switch(o.k) {")
+            for i, d in enumerate(lv.data):
+                c.append("          case %d: r = mh::cur_group_op<%s_%sd%d>(v, cur, o.w, c.base); break;" % (i, name, sfx, i))
+            c.append("          default: break; }")
+            c.append("      });")
+            c.append("      if(!first) os << ' '; first = false;")
+            c.append("      if(st == 1) { os << body << \":ASSERT\"; break; }")
+            c.append("      if(st == 2) { os << body << \":FAULT\"; break; }")
+            c.append("      os << body << r << \",c\" << mh::off_of(cur.pointer(), c.base); }")
+            c.append("    return os.str(); }")
+            c.append("#endif")
         pre = ["#ifdef MSGDRV_CURSOR"]
         for k, f in enumerate(nf):
             pre.append("struct %s_f%d { template<typename V, typename C> auto operator()(V v, C&& c) const -> decltype(v.%s(std::forward<C>(c))) { return v.%s(std::forward<C>(c)); } };" % (name, k, f.name, f.name))
@@ -192,6 +195,13 @@ class DriverGen:
             pre.append("struct %s_g%d { template<typename V, typename C> auto operator()(V v, C&& c) const -> decltype(v.%s(std::forward<C>(c))) { return v.%s(std::forward<C>(c)); } };" % (name, i, g.name, g.name))
         for i, d in enumerate(lv.data):
             pre.append("struct %s_d%d { template<typename V, typename C> auto operator()(V v, C&& c) const -> decltype(v.%s(std::forward<C>(c))) { return v.%s(std::forward<C>(c)); } };" % (name, i, d.name, d.name))
+        pre.append("#endif")
+        pre.append("#if defined(MSGDRV_CURSOR) && defined(MSGDRV_BYTAG)")
+        for kind, members in (("f", nf), ("g", lv.groups), ("d", lv.data)):
+            for k, mem in enumerate(members):
+                pre.append("struct %s_t%s%d { template<typename V, typename C> auto operator()(V v, C&& c) const -> "
+                           "decltype(sbepp::get_by_tag<%s::%s>(v, std::forward<C>(c))) { return sbepp::get_by_tag<%s::%s>(v, std::forward<C>(c)); } };"
+                           % (name, kind, k, tag, mem.name, tag, mem.name))
         pre.append("#endif")
         self.funcs.append("\n".join(pre))
         c.append("  return \"ERROP\";\n}\n")
@@ -232,7 +242,7 @@ class DriverGen:
             out.append("          else if(a[0] == \"ctrav\") { mh::rec_visitor rv(c.base, a.size() > 1 ? std::atol(a[1].c_str()) : -1); auto cur = sbepp::init_cursor(m);")
             out.append("            sbepp::visit(m, cur, rv); std::string ev = rv.os.str(); if(!ev.empty() && ev.back() == ' ') ev.pop_back();")
             out.append("            res = ev + (ev.empty() ? \"\" : \" \") + \"c=\" + mh::off_of(cur.pointer(), c.base) + \" | \" + rv.names.str(); }")
-            out.append("          else if(a[0] == \"cur\") { c.path = mh::parse_path(a[1]); c.arg = a[2]; c.ops.assign(a.begin() + 3, a.end()); res = %s(m, c, 0); }" % fn)
+            out.append("          else if(a[0] == \"cur\" || a[0] == \"curt\") { c.path = mh::parse_path(a[1]); c.arg = a[2]; c.ops.assign(a.begin() + 3, a.end()); res = %s(m, c, 0); }" % fn)
             out.append("#endif")
             out.append("          else { c.path = mh::parse_path(a.size() > 1 ? a[1] : \".\");")
             out.append("            if(a.size() > 2) c.k = std::atoi(a[2].c_str());")
